@@ -78,8 +78,8 @@ def fake_matplotlib():
     if "matplotlib.pyplot" not in sys.modules or not hasattr(sys.modules["matplotlib.pyplot"], "_verif_fake"):
         m = types.ModuleType("matplotlib")
         pp = types.ModuleType("matplotlib.pyplot")
-        pp.plot = lambda *a, **k: None
-        pp.show = lambda *a, **k: None
+        for name in ("plot", "show", "figure", "axhline", "legend", "subplot", "pcolor", "title", "colorbar"):
+            setattr(pp, name, lambda *a, **k: None)
         pp._verif_fake = True
         m.pyplot = pp
         sys.modules.setdefault("matplotlib", m)
